@@ -70,7 +70,7 @@ pub fn frame_json(f: &Frame) -> Value {
 }
 
 fn res_json(t: &str, frames: Vec<Value>, code: u64, idx: u64, cmd: &[u8], msg: &[u8], kind: &str) -> Value {
-    json!({"t": t, "frames": frames, "code": code, "idx": idx, "cmd": cmd, "msg": msg, "kind": kind})
+    json!({"t": t, "frames": frames, "code": code, "idx": idx, "cmd": cmd, "msg": msg, "kind": kind, "items": []})
 }
 
 pub fn cmd_err_json(e: &CommandError) -> Value {
@@ -204,7 +204,11 @@ impl Driver {
                 .enumerate()
                 .map(|(j, s)| {
                     let id = if kind == "raw" { req_id(c, n, None) } else { req_id(c, n, Some(j + 1)) };
-                    json!({"id": id.as_bytes(), "fail": s["fail"].as_bool().unwrap_or(false), "pad": s["pad"].as_u64().unwrap_or(0)})
+                    if kind == "tlist" || kind == "tvec" {
+                        let t = if kind == "tvec" { "sticker" } else { ["sticker", "update", "addid", "channels"][j % 4] };
+                        return json!({"id": if t == "channels" { vec![] } else { id.as_bytes().to_vec() }, "fail": false, "pad": 0, "t": t});
+                    }
+                    json!({"id": id.as_bytes(), "fail": s["fail"].as_bool().unwrap_or(false), "pad": s["pad"].as_u64().unwrap_or(0), "t": "req"})
                 })
                 .collect();
             *started2.lock().unwrap() = true;
@@ -224,6 +228,42 @@ impl Driver {
                     }
                     match cl.raw_command_list(list).await {
                         Ok(fs) => res_json("ok", fs.iter().map(frame_json).collect(), 0, 0, b"", b"", ""),
+                        Err(e) => cmd_err_json(&e),
+                    }
+                }
+                "tlist" | "tvec" => {
+                    use mpd_client::commands::{Add, ListChannels, StickerGet, Update};
+                    let u: Vec<String> = (0..cmds.len()).map(|j| req_id(c, n, Some(j + 1))).collect();
+                    let tl = |items: Vec<Value>| {
+                        let mut v = res_json("tl", vec![], 0, 0, b"", b"", "");
+                        v["items"] = json!(items);
+                        v
+                    };
+                    let sg = |s: mpd_client::responses::StickerGet| json!(["sticker", s.value.as_bytes()]);
+                    let up = |x: u64| json!(["update", x.to_string().as_bytes()]);
+                    let ad = |x: mpd_client::commands::SongId| json!(["add", x.0.to_string().as_bytes()]);
+                    let ch = |x: Vec<String>| json!(["channels", x.iter().map(|s| s.as_bytes().to_vec()).collect::<Vec<_>>()]);
+                    let r = if kind == "tvec" {
+                        let v: Vec<StickerGet<'_>> = u.iter().map(|x| StickerGet::new(x, "n")).collect();
+                        cl.command_list(v).await.map(|rs| tl(rs.into_iter().map(sg).collect()))
+                    } else {
+                        match cmds.len() {
+                            1 => cl.command_list((StickerGet::new(&u[0], "n"),)).await.map(|(a,)| tl(vec![sg(a)])),
+                            2 => cl.command_list((StickerGet::new(&u[0], "n"), Update::new().uri(&u[1]))).await.map(|(a, b)| tl(vec![sg(a), up(b)])),
+                            3 => cl.command_list((StickerGet::new(&u[0], "n"), Update::new().uri(&u[1]), Add::uri(&u[2]))).await.map(|(a, b, c3)| tl(vec![sg(a), up(b), ad(c3)])),
+                            4 => cl.command_list((StickerGet::new(&u[0], "n"), Update::new().uri(&u[1]), Add::uri(&u[2]), ListChannels)).await.map(|(a, b, c3, d4)| tl(vec![sg(a), up(b), ad(c3), ch(d4)])),
+                            5 => cl
+                                .command_list((StickerGet::new(&u[0], "n"), Update::new().uri(&u[1]), Add::uri(&u[2]), ListChannels, StickerGet::new(&u[4], "n")))
+                                .await
+                                .map(|(a, b, c3, d4, e5)| tl(vec![sg(a), up(b), ad(c3), ch(d4), sg(e5)])),
+                            _ => cl
+                                .command_list((StickerGet::new(&u[0], "n"), Update::new().uri(&u[1]), Add::uri(&u[2]), ListChannels, StickerGet::new(&u[4], "n"), Update::new().uri(&u[5])))
+                                .await
+                                .map(|(a, b, c3, d4, e5, f6)| tl(vec![sg(a), up(b), ad(c3), ch(d4), sg(e5), up(f6)])),
+                        }
+                    };
+                    match r {
+                        Ok(v) => v,
                         Err(e) => cmd_err_json(&e),
                     }
                 }
